@@ -188,10 +188,13 @@ pub struct Expanded {
 
 pub const CODE_BASE: u64 = 1000;
 
-fn mk_id(node: usize, elem: usize, salt: u64) -> CmdId {
+fn mk_id(node: usize, elem: usize, salt: u64, low: bool) -> CmdId {
     let mut r = Rng::new(salt ^ ((node as u64) << 32) ^ elem as u64);
     let mut b = [0u8; 32];
     r.fill(&mut b[..8]); // leading bytes decide the id order: pseudo-random w.r.t. ancestry
+    if low {
+        b[..8].fill(0); // "idlow" nodes sort before every other command (head sets and samples list them first)
+    }
     b[8] = node as u8;
     b[9] = (elem >> 8) as u8;
     b[10] = elem as u8;
@@ -223,23 +226,30 @@ pub fn parse_set(v: &Value) -> BTreeSet<usize> {
 }
 
 /// Parse the stretch plan: array over nodes of {"kind":"chain"|"fan","k":n}; missing = chain/1.
-pub fn parse_stretch(b: &Value, n: usize) -> (Vec<Kind>, Vec<usize>) {
+pub fn parse_stretch(b: &Value, n: usize) -> (Vec<Kind>, Vec<usize>, Vec<bool>) {
     let mut kind = vec![Kind::Chain; n + 1];
     let mut size = vec![1usize; n + 1];
+    let mut low = vec![false; n + 1];
     if let Some(a) = b.get("stretch").and_then(Value::as_array) {
         for (i, s) in a.iter().enumerate().take(n) {
             kind[i + 1] = if s.s("kind") == "fan" { Kind::Fan } else { Kind::Chain };
             size[i + 1] = (s.u("k") as usize).clamp(1, (CODE_BASE - 1) as usize);
+            low[i + 1] = s.get("idlow").and_then(Value::as_bool).unwrap_or(false);
         }
     }
     if kind[1] == Kind::Fan {
         die("init node cannot be a fan");
     }
-    (kind, size)
+    (kind, size, low)
 }
 
 impl Expanded {
     pub fn new(par: Vec<Vec<usize>>, kind: Vec<Kind>, size: Vec<usize>, salt: u64) -> Self {
+        let low = vec![false; par.len()];
+        Self::new_with(par, kind, size, low, salt)
+    }
+
+    pub fn new_with(par: Vec<Vec<usize>>, kind: Vec<Kind>, size: Vec<usize>, low: Vec<bool>, salt: u64) -> Self {
         let n = par.len() - 1;
         let mut cmds: Vec<Real> = Vec::new();
         let mut of_node: Vec<Vec<usize>> = vec![vec![]; n + 1];
@@ -256,7 +266,7 @@ impl Expanded {
                 } else {
                     vec![*of_node[node].last().unwrap()]
                 };
-                let id = mk_id(node, elem, salt);
+                let id = mk_id(node, elem, salt, low[node]);
                 let mut paddr: Vec<Address> = parents.iter().map(|&i| cmds[i].addr).collect();
                 paddr.sort_by_key(|a| a.id);
                 let (parent, mc, prio) = match paddr.len() {
@@ -291,8 +301,8 @@ impl Expanded {
     pub fn from_behaviour(b: &Value, salt: u64) -> Self {
         let par = parse_par(b.g("par"));
         let n = par.len() - 1;
-        let (kind, size) = parse_stretch(b, n);
-        Expanded::new(par, kind, size, salt)
+        let (kind, size, low) = parse_stretch(b, n);
+        Expanded::new_with(par, kind, size, low, salt)
     }
 
     /// All real command indices of a set of abstract nodes.
